@@ -27,6 +27,14 @@ for name in sys.argv[2:]:
     if rc != 0:
         rc, out = sh("git apply --3way %s/patch.diff" % seed)
         how = "git apply --3way"
+    if rc != 0:  # the stored patch may have been rebased after a later fix: try the current head
+        head = subprocess.check_output(["git", "-C", "/repo", "log", "--format=%h", "-1"], text=True).strip()
+        sh("git checkout -q -- . ; git clean -fdq; git checkout -q --detach %s" % head)
+        rc, out = sh("git apply %s/patch.diff" % seed)
+        how = "git apply (current head)"
+        if rc != 0:
+            rc, out = sh("git apply --3way %s/patch.diff" % seed)
+            how = "git apply --3way (current head)"
     rec = {"base": head, "applied_with": how, "applies": rc == 0}
     if rc == 0:
         rc, out = sh("go1.26 test -mod=mod -vet=off ./common/... ./component/... ./config/... ./pkg/... 2>&1")
